@@ -78,13 +78,13 @@ fn wait_until(mut g: std::sync::MutexGuard<'static, Option<Ctl>>, ms: u64, cond:
 
 fn grant(w: usize) -> bool {
     let g = CTL.lock().unwrap();
-    let (mut g, ok) = wait_until(g, 2000, |c| c.parked[w].is_some());
+    let (mut g, ok) = wait_until(g, 20000, |c| c.parked[w].is_some());
     if !ok { return false }
     g.as_mut().unwrap().grant[w] = true;
     CV.notify_all();
-    let (g, _) = wait_until(g, 2000, |c| !c.grant[w]);
+    let (g, _) = wait_until(g, 20000, |c| !c.grant[w]);
     // until it parks again or is finished
-    let (_g, ok) = wait_until(g, 2000, |c| c.parked[w].is_some() || (w == H && !c.h_active) || (w == P && (c.p_done.is_some() || c.p_waiting)));
+    let (_g, ok) = wait_until(g, 20000, |c| c.parked[w].is_some() || (w == H && !c.h_active) || (w == P && (c.p_done.is_some() || c.p_waiting)));
     ok
 }
 
@@ -125,7 +125,7 @@ fn proto(scn: &Value) -> Value {
             "S" => {
                 unsafe { libc::raise(libc::SIGINT); }
                 let g = CTL.lock().unwrap();
-                let (_g, ok) = wait_until(g, 3000, |c| c.parked[H] == Some("h:begin"));
+                let (_g, ok) = wait_until(g, 30000, |c| c.parked[H] == Some("h:begin"));
                 if !ok { stuck += 1 }
             }
             "H" => { if !grant(H) { stuck += 1 } else {
@@ -150,10 +150,10 @@ fn proto(scn: &Value) -> Value {
     // free run to quiescence
     { let mut g = CTL.lock().unwrap(); g.as_mut().unwrap().free = true; CV.notify_all(); }
     let g = CTL.lock().unwrap();
-    let (mut g, quiet) = wait_until(g, 5000, |c| c.p_done.is_some() || (c.p_waiting && !c.h_active && WAKES.load(Ordering::SeqCst) == c.seen));
+    let (mut g, quiet) = wait_until(g, 30000, |c| c.p_done.is_some() || (c.p_waiting && !c.h_active && WAKES.load(Ordering::SeqCst) == c.seen));
     // give a straggling handler wake-up a last chance (handler thread may be between swap and wake only if active, excluded above)
     g.as_mut().unwrap().finalize = true; CV.notify_all();
-    let (g, _) = wait_until(g, 3000, |c| c.p_done.is_some());
+    let (g, _) = wait_until(g, 30000, |c| c.p_done.is_some());
     let returned = g.as_ref().unwrap().p_done == Some(true);
     let log = g.as_ref().unwrap().log.clone();
     let hruns = g.as_ref().unwrap().h_runs;
@@ -201,7 +201,7 @@ fn e2e(scn: &Value) -> Value {
         let script = tokio::spawn(async move {
             // wait until it listens
             let mut up = false;
-            for _ in 0..400 { if let Ok(c) = tokio::net::TcpStream::connect(("127.0.0.1", port)).await { drop(c); up = true; break } tokio::time::sleep(Duration::from_millis(5)).await }
+            for _ in 0..4000 { if let Ok(c) = tokio::net::TcpStream::connect(("127.0.0.1", port)).await { drop(c); up = true; break } tokio::time::sleep(Duration::from_millis(5)).await }
             if !up { return Err("howl did not listen") }
             // that probe connection is a session too: it ends when the server reads EOF
             tokio::time::sleep(Duration::from_millis(20)).await;
@@ -223,7 +223,7 @@ fn e2e(scn: &Value) -> Value {
                             buf
                         });
                         // wait until the handler has started (always, before a signal; maybe never, after one)
-                        let lim = if signalled { 60 } else { 1000 };
+                        let lim = if signalled { 60 } else { 6000 };
                         let mut started = false;
                         for _ in 0..lim { if EVENTS.lock().unwrap().iter().any(|(k, j)| k == "started" && *j == i as i64) { started = true; break } tokio::time::sleep(Duration::from_millis(5)).await }
                         if started && !crashing { inflight.push_back(i) } else if !started { unserved += 1; ev("unserved", i as i64) }
@@ -253,7 +253,7 @@ fn e2e(scn: &Value) -> Value {
             if signalled && !inflight.is_empty() { tokio::time::sleep(Duration::from_millis(100)).await; ev("grace-over", inflight.len() as i64); }
             while let Some(i) = inflight.pop_front() { ev("release", i as i64); RELEASE.lock().unwrap()[i].notify_one(); }
             let mut returned = false;
-            if signalled { for _ in 0..2500 { if EVENTS.lock().unwrap().iter().any(|(k, _)| k == "returned") { returned = true; break } tokio::time::sleep(Duration::from_millis(2)).await } }
+            if signalled { for _ in 0..15000 { if EVENTS.lock().unwrap().iter().any(|(k, _)| k == "returned") { returned = true; break } tokio::time::sleep(Duration::from_millis(2)).await } }
             for h in clients { h.abort(); }
             Ok((signalled, unserved, returned))
         });
